@@ -6,3 +6,6 @@ import Xrfmv.Props.C01
 #print axioms Xrfmv.Props.C01.batch_independent
 #print axioms Xrfmv.Props.C01.internal_batch_size_irrelevant
 #print axioms Xrfmv.Props.C01.ensemble_rowwise
+#print axioms Xrfmv.Props.C01.chunk_loops_are_tilings
+#print axioms Xrfmv.Props.C01.tiling_is_rowwise
+#print axioms Xrfmv.Props.C01.narrow_or_wide_blocks_are_not_rowwise
